@@ -250,34 +250,41 @@ Definition parse_float_ok (int_ds frac_ds : str) (exp : option (bool * str)) : b
       end
   end.
 
+(* scanNumber(head) in its three parts: the digits after the head were read into the state [s1] *)
+(* `if s.peek() == '.' { ... }`: has a fraction, its digits *)
+Definition scan_frac (s1 : pst) : bool * str * pst :=
+  if opt_eq (peek s1) 46 then
+    let '(d2, s') := while_next is_decimal (snd (next s1)) in (true, d2, s')
+  else (false, [], s1).
+(* `if s.peek() == '+' || s.peek() == '-' { ... }` *)
+Definition scan_sign (sa : pst) : str * pst :=
+  match peek sa with
+  | Some g => if (g =? 43) || (g =? 45) then ([g], snd (next sa)) else ([], sa)
+  | None => ([], sa)
+  end.
+(* `if s.peek() == 'e' || s.peek() == 'E' { ... }`: (negative, exponent digits), what was written *)
+Definition scan_exp (s2 : pst) : option (bool * str) * str * pst :=
+  match peek s2 with
+  | Some e =>
+      if (e =? 101) || (e =? 69) then
+        let '(sign, sb) := scan_sign (snd (next s2)) in
+        let '(d3, sc) := while_next is_decimal sb in
+        (Some (match sign with g :: _ => g =? 45 | [] => false end, d3), e :: sign ++ d3, sc)
+      else (None, [], s2)
+  | None => (None, [], s2)
+  end.
+
 (* scanNumber(head): kind, literal, error, state *)
 Definition scan_number (c : cfg) (head : N) (s : pst) : Z * str * option lexerr * pst :=
   let '(d1, s1) := while_next is_decimal s in
   let int_ds := head :: d1 in
-  let '(has_frac, frac_ds, s2) :=
-    if opt_eq (peek s1) 46 then
-      let '(d2, s') := while_next is_decimal (snd (next s1)) in (true, d2, s')
-    else (false, [], s1) in
-  let lit2 := if has_frac then int_ds ++ 46 :: frac_ds else int_ds in
-  let '(exp, lit3, s3) :=
-    match peek s2 with
-    | Some e =>
-        if (e =? 101) || (e =? 69) then
-          let sa := snd (next s2) in
-          let '(sign, sb) :=
-            match peek sa with
-            | Some g => if (g =? 43) || (g =? 45) then ([g], snd (next sa)) else ([], sa)
-            | None => ([], sa)
-            end in
-          let '(d3, sc) := while_next is_decimal sb in
-          (Some (match sign with g :: _ => g =? 45 | [] => false end, d3), lit2 ++ e :: sign ++ d3, sc)
-        else (None, lit2, s2)
-    | None => (None, lit2, s2)
-    end in
+  let '(has_frac, frac_ds, s2) := scan_frac s1 in
+  let '(exp, exp_lit, s3) := scan_exp s2 in
+  let lit := (if has_frac then int_ds ++ 46 :: frac_ds else int_ds) ++ exp_lit in
   let is_int := negb has_frac && match exp with None => true | Some _ => false end in
-  if is_int && parse_int_ok int_ds then (k_integer (c_tok c), lit3, None, s3)
-  else if parse_float_ok int_ds frac_ds exp then (k_float (c_tok c), lit3, None, s3)
-  else (k_float (c_tok c), lit3, Some ENumber, s3).
+  if is_int && parse_int_ok int_ds then (k_integer (c_tok c), lit, None, s3)
+  else if parse_float_ok int_ds frac_ds exp then (k_float (c_tok c), lit, None, s3)
+  else (k_float (c_tok c), lit, Some ENumber, s3).
 
 (* ---- quoted literals: scanString(quote) ----------------------------------------------------- *)
 (* result: the raw literal (escapes and doubled quotation marks kept), whether the closing
@@ -533,3 +540,39 @@ Definition tokens (c : cfg) (m : modes) (src : str) : option (list token * N) :=
   | Some (ts, h) => Some (ts, h_num h)
   | None => None
   end.
+
+(* ---- specification vocabulary: the positions of a text ----------------------------------------- *)
+(* the (line, char) pairs of a text, the way the scanner counts: the position before the first code
+   point, then the position after 1, 2, ... calls of next() -- CR, LF and CR LF end a line, char
+   counts the code points since the last line end *)
+Fixpoint positions_l (l : str) (ln cl : N) : list (N * N) :=
+  (ln, cl) ::
+  match l with
+  | [] => []
+  | c :: r =>
+      if c =? 13 then
+        match r with
+        | d :: r' => if d =? 10 then positions_l r' (ln + 1) 0 else positions_l r (ln + 1) 0
+        | [] => positions_l r (ln + 1) 0
+        end
+      else if c =? 10 then positions_l r (ln + 1) 0
+      else positions_l r ln (cl + 1)
+  end.
+Definition pos_inside (src : str) (ln cl : N) : bool :=
+  existsb (fun p => (fst p =? ln) && (snd p =? cl)) (positions_l src 1 0).
+
+
+(* the decidable form of the specification of a token stream (what the harness evaluates on the
+   implementation's own answers): every token is reported at a position of the text, the EOF token
+   is the last and only the last, and there are at most as many other tokens as code points *)
+Fixpoint eof_last (ts : list token) : bool :=
+  match ts with
+  | [] => false
+  | [t] => (t_kind t =? k_eof)%Z
+  | t :: ts' => negb (t_kind t =? k_eof)%Z && eof_last ts'
+  end.
+Definition at_position (ps : list (N * N)) (t : token) : bool :=
+  existsb (fun p => if fst p =? t_line t then snd p =? t_char t else false) ps.
+Definition stream_ok (src : str) (ts : list token) : bool :=
+  let ps := positions_l src 1 0 in
+  forallb (at_position ps) ts && eof_last ts && (length ts <=? S (length src))%nat.
